@@ -40,6 +40,13 @@ Objective = obj_module.Objective
 LOCKS = collections.defaultdict(lambda: threading.Lock())
 # Map each `Oracle` instance to the thread name aquired the `Lock`.
 THREADS = collections.defaultdict(lambda: None)
+# Guards the creation of the entries of `LOCKS`.
+LOCKS_LOCK = threading.Lock()
+
+
+def _get_lock(oracle):
+    with LOCKS_LOCK:
+        return LOCKS[oracle]
 
 
 @keras_tuner_export("keras_tuner.synchronized")
@@ -101,17 +108,17 @@ def synchronized(func, *args, **kwargs):
 
         oracle = args[0]
         thread_name = threading.currentThread().getName()
-        need_acquire = THREADS[oracle] != thread_name
+        need_acquire = THREADS.get(oracle) != thread_name
 
         if need_acquire:
-            LOCKS[oracle].acquire()
+            _get_lock(oracle).acquire()
             THREADS[oracle] = thread_name
         try:
             ret_val = func(*args, **kwargs)
         finally:
             if need_acquire:
                 THREADS[oracle] = None
-                LOCKS[oracle].release()
+                _get_lock(oracle).release()
         return ret_val
 
     return wrapped_func
